@@ -85,6 +85,7 @@ Definition toy : oracles bool :=
      o_is_directive_start := fun _ => false;
      o_fs_read := fun p => if str_eqb p s_f then Some (l_D ++ nl) else None;
      o_include_opts := fun _ => (false, 0);
+     o_source := [109];
      o_adm_run := admonition_run |}.
 
 (* the witness documents *)
